@@ -626,7 +626,7 @@ def base_texts(chk, rng, n):
     for name, text in wholefile.fixtures():
         out.append((wholefile.ascii_clean(text), 128))
     for i in range(n):
-        feats = {"transforms", "periodic", "boundary", "universes", "complements", "thermal", "data_placement", "shortcuts",
+        feats = {"transforms", "periodic", "boundary", "universes", "complements", "thermal", "data_placement", "shortcuts", "progressions",
                  "plain_params"}
         gp = genprob.generate(rng, features=feats)
         style = "plain" if rng.random() < 0.6 else "random"
